@@ -477,7 +477,10 @@ class ValueWrapper(Term):
         parameter: Parameter = None,
         **kwargs: Any,
     ) -> str:
-        if parameter is None:
+        if parameter is None or isinstance(self.value, Term):
+            # a wrapped Term is SQL, not data: render it in place and let its own values be collected
+            if parameter is not None:
+                kwargs = dict(kwargs, parameter=parameter)
             sql = self.get_value_sql(quote_char=quote_char, secondary_quote_char=secondary_quote_char, **kwargs)
             return format_alias_sql(sql, self.alias, quote_char=quote_char, **kwargs)
 
